@@ -41,7 +41,7 @@ def main():
         res = {}
         for p in props:
             t0 = time.time()
-            env = dict(os.environ, VERIF_REPO=wt)
+            env = dict(os.environ, VERIF_REPO=wt, VERIF_FAIL_FAST='1')
             out = subprocess.run([os.path.join(VERIF, 'run'), 'check', p, '--tier', a.tier, '--no-evidence'], cwd=VERIF, env=env,
                                  stdout=subprocess.PIPE, stderr=subprocess.PIPE, text=True)
             viol = [l for l in out.stdout.split('\n') if l.startswith('VIOLATION')]
